@@ -3,7 +3,7 @@
 From Coq Require Import List Arith Bool Setoid Lia.
 From RecordUpdate Require Import RecordSet.
 From SV Require Import Base.Base IR.State IR.NS IR.Ops Proofs.AssocX Proofs.Frame Proofs.Inv1a Proofs.Inv2a
-  Proofs.InvP Proofs.InvW Proofs.Refused Proofs.Fresh Proofs.NsSlot.
+  Proofs.InvP Proofs.InvW Proofs.Refused Proofs.Fresh Proofs.NsSlot Proofs.Ident.
 Import ListNotations RecordSetNotations.
 
 Definition name_key (s : state) (c : id) : option str := get_str s c str_NAME.
@@ -27,13 +27,13 @@ Definition InvT (s : state) : Prop :=
 
 Lemma tabok_ext s s' (M M' : Mem) p t :
   TabOK s M p t ->
-  (forall r c, M' r p c <-> M r p c) ->
+  (forall r c, ns_rel r = true -> (M' r p c <-> M r p c)) ->
   (forall r c, ns_rel r = true -> M r p c -> name_key s' c = name_key s c /\ ident_key s' c = ident_key s c) ->
   TabOK s' M' p t.
 Proof.
   intros [H1 H2] Hm Hk. constructor.
-  - intros r Hr. eapply slot_ext; [apply (H1 r Hr)|intro c; apply Hm|]. intros c Hc. apply (Hk r c Hr Hc).
-  - intros Hp r Hr. eapply slot_ext; [apply (H2 Hp r Hr)|intro c; apply Hm|]. intros c Hc. apply (Hk r c Hr Hc).
+  - intros r Hr. eapply slot_ext; [apply (H1 r Hr)|intro c; apply (Hm r c Hr)|]. intros c Hc. apply (Hk r c Hr Hc).
+  - intros Hp r Hr. eapply slot_ext; [apply (H2 Hp r Hr)|intro c; apply (Hm r c Hr)|]. intros c Hc. apply (Hk r c Hr Hc).
 Qed.
 
 Lemma rel_eq_dec (a b : rel) : {a = b} + {a <> b}.
@@ -562,9 +562,9 @@ Proof.
 Qed.
 
 (* ---- where an element sits ---- *)
-Lemma nsinvm_mem_ext s (M M' : Mem) : (forall r p c, M' r p c <-> M r p c) -> NsInvM s M -> NsInvM s M'.
+Lemma nsinvm_mem_ext s (M M' : Mem) : (forall r p c, ns_rel r = true -> (M' r p c <-> M r p c)) -> NsInvM s M -> NsInvM s M'.
 Proof.
-  intros Hm H p t Hp. apply (tabok_ext s s M M' p t (H p t Hp)); [intros; apply Hm|]. intros; split; reflexivity.
+  intros Hm H p t Hp. apply (tabok_ext s s M M' p t (H p t Hp)); [intros; apply Hm; assumption|]. intros; split; reflexivity.
 Qed.
 
 Lemma nsinv_kids s s' : kids s' = kids s -> NsInvM s' (kmem s) -> NsInv s'.
@@ -881,4 +881,878 @@ Proof.
   - destruct (HT r0 p0 p Hy) as [Hk _]. rewrite Hkp in Hk. injection Hk as Hk.
     rewrite Hkc in Hcase. destruct Hcase as [E|[[E N]|[E [N1 N2]]]]; injection E as E;
       destruct r, r0; cbn in *; try discriminate; try contradiction.
+Qed.
+
+(* ---- NamespaceManager.add: the child is entered in the parent's table ---- *)
+Definition mem_add (M : Mem) (r : rel) (p c : id) : Mem :=
+  fun r' p' c' => M r' p' c' \/ (r' = r /\ p' = p /\ c' = c).
+Definition mem_del (M : Mem) (r : rel) (p c : id) : Mem :=
+  fun r' p' c' => M r' p' c' /\ ~ (r' = r /\ p' = p /\ c' = c).
+
+Lemma ns_update_names_name t ek e old v k' :
+  ns_names (ns_update t ek e str_NAME old v) k' = if kind_eqb k' ek then tab_replace (ns_names t ek) old v e else ns_names t k'.
+Proof. unfold ns_update. rewrite str_eqb_refl. cbn. unfold updk. destruct (kind_eqb k' ek); reflexivity. Qed.
+Lemma ns_update_idents_name t ek e old v : ns_idents (ns_update t ek e str_NAME old v) = ns_idents t.
+Proof. unfold ns_update. rewrite str_eqb_refl. reflexivity. Qed.
+Lemma ns_update_names_ident t ek e old v : ns_names (ns_update t ek e str_IDENT old v) = ns_names t.
+Proof. unfold ns_update. rewrite ident_ne_name. destruct (ns_pol t); [reflexivity|]. rewrite str_eqb_refl. reflexivity. Qed.
+Lemma ns_update_idents_ident t ek e old v k' :
+  ns_idents (ns_update t ek e str_IDENT old v) k' =
+  match ns_pol t with
+  | PolDefault => ns_idents t k'
+  | PolEdif => if kind_eqb k' ek then tab_replace (ns_idents t ek) (option_map lower old) (lower v) e else ns_idents t k'
+  end.
+Proof.
+  unfold ns_update. rewrite ident_ne_name. destruct (ns_pol t); [reflexivity|]. rewrite str_eqb_refl. cbn. unfold updk.
+  destruct (kind_eqb k' ek); reflexivity.
+Qed.
+
+(* the table part of NamespaceManager.add *)
+Definition add_table (s : state) (t : nstable) (ck : kind) (c : id) : nstable :=
+  let t1 := match get_str s c str_IDENT with Some v => ns_update t ck c str_IDENT (Some v) v | None => t end in
+  match get_str s c str_NAME with Some v => ns_update t1 ck c str_NAME (Some v) v | None => t1 end.
+
+Lemma add_table_ok s M r p c t :
+  ns_rel r = true -> TabOK s M p t -> ~ M r p c ->
+  (forall v, get_str s c str_NAME = Some v -> sassoc v (ns_names t (rel_child r)) = None) ->
+  (ns_pol t = PolEdif -> forall v, get_str s c str_IDENT = Some v -> sassoc (lower v) (ns_idents t (rel_child r)) = None) ->
+  TabOK s (mem_add M r p c) p (add_table s t (rel_child r) c) /\ ns_pol (add_table s t (rel_child r) c) = ns_pol t.
+Proof.
+  intros Hr [T1 T2] Hnm Hn Hi.
+  assert (Hpol : ns_pol (add_table s t (rel_child r) c) = ns_pol t).
+  { unfold add_table. destruct (get_str s c str_NAME), (get_str s c str_IDENT); rewrite ?ns_update_pol; reflexivity. }
+  split; [|exact Hpol]. constructor.
+  - intros r0 Hr0. unfold add_table.
+    assert (Hnames : ns_names (match get_str s c str_IDENT with Some v => ns_update t (rel_child r) c str_IDENT (Some v) v | None => t end) = ns_names t)
+      by (destruct (get_str s c str_IDENT); [apply ns_update_names_ident|reflexivity]).
+    destruct (rel_eq_dec r0 r) as [->|Hne].
+    + destruct (get_str s c str_NAME) as [v|] eqn:Ev.
+      * rewrite ns_update_names_name, kind_eqb_refl, Hnames.
+        eapply slot_ext; [apply (slot_insert _ _ (name_key s) c v (T1 r Hr) Hnm Ev (Hn v eq_refl))| |intros; reflexivity].
+        intro c0. unfold mem_add. split; [intros [H|[_ [_ ->]]]; auto|intros [H| ->]; auto].
+      * rewrite Hnames. eapply slot_ext; [apply (slot_insert_keyless _ _ (name_key s) c (T1 r Hr) Ev)| |intros; reflexivity].
+        intro c0. unfold mem_add. split; [intros [H|[_ [_ ->]]]; auto|intros [H| ->]; auto].
+    + assert (Hkk : kind_eqb (rel_child r0) (rel_child r) = false).
+      { destruct (kind_eqb (rel_child r0) (rel_child r)) eqn:E; [|reflexivity]. apply kind_eqb_eq in E. exfalso. apply Hne. apply rel_child_inj; assumption. }
+      assert (E : ns_names (match get_str s c str_NAME with Some v => ns_update (match get_str s c str_IDENT with Some v0 => ns_update t (rel_child r) c str_IDENT (Some v0) v0 | None => t end) (rel_child r) c str_NAME (Some v) v | None => match get_str s c str_IDENT with Some v0 => ns_update t (rel_child r) c str_IDENT (Some v0) v0 | None => t end end) (rel_child r0) = ns_names t (rel_child r0)).
+      { destruct (get_str s c str_NAME); [rewrite ns_update_names_name, Hkk|]; rewrite Hnames; reflexivity. }
+      rewrite E. eapply slot_ext; [apply (T1 r0 Hr0)| |intros; reflexivity].
+      intro c0. unfold mem_add. split; [intros [H|[E0 _]]; [exact H|contradiction]|auto].
+  - rewrite Hpol. intros Hp r0 Hr0. unfold add_table.
+    assert (Hid : forall t1 k', ns_idents (match get_str s c str_NAME with Some v => ns_update t1 (rel_child r) c str_NAME (Some v) v | None => t1 end) k' = ns_idents t1 k')
+      by (intros t1 k'; destruct (get_str s c str_NAME); [rewrite ns_update_idents_name|]; reflexivity).
+    rewrite Hid.
+    destruct (rel_eq_dec r0 r) as [->|Hne].
+    + destruct (get_str s c str_IDENT) as [v|] eqn:Ev.
+      * rewrite ns_update_idents_ident, Hp, kind_eqb_refl. cbn [option_map].
+        assert (Ek : ident_key s c = Some (lower v)) by (unfold ident_key; rewrite Ev; reflexivity).
+        eapply slot_ext; [apply (slot_insert _ _ (ident_key s) c (lower v) (T2 Hp r Hr) Hnm Ek (Hi Hp v eq_refl))| |intros; reflexivity].
+        intro c0. unfold mem_add. split; [intros [H|[_ [_ ->]]]; auto|intros [H| ->]; auto].
+      * assert (Ek : ident_key s c = None) by (unfold ident_key; rewrite Ev; reflexivity).
+        eapply slot_ext; [apply (slot_insert_keyless _ _ (ident_key s) c (T2 Hp r Hr) Ek)| |intros; reflexivity].
+        intro c0. unfold mem_add. split; [intros [H|[_ [_ ->]]]; auto|intros [H| ->]; auto].
+    + assert (Hkk : kind_eqb (rel_child r0) (rel_child r) = false).
+      { destruct (kind_eqb (rel_child r0) (rel_child r)) eqn:E; [|reflexivity]. apply kind_eqb_eq in E. exfalso. apply Hne. apply rel_child_inj; assumption. }
+      assert (E : ns_idents (match get_str s c str_IDENT with Some v => ns_update t (rel_child r) c str_IDENT (Some v) v | None => t end) (rel_child r0) = ns_idents t (rel_child r0)).
+      { destruct (get_str s c str_IDENT); [rewrite ns_update_idents_ident, Hp, Hkk|]; reflexivity. }
+      rewrite E. eapply slot_ext; [apply (T2 Hp r0 Hr0)| |intros; reflexivity].
+      intro c0. unfold mem_add. split; [intros [H|[E0 _]]; [exact H|contradiction]|auto].
+Qed.
+
+(* ---- element[".NS"] = v and del element[".NS"]: what they leave alone ---- *)
+Record ksame (s s' : state) : Prop := mkKsame {
+  ks_kids : kids s' = kids s; ks_kind : kind_of s' = kind_of s; ks_par : par s' = par s;
+  ks_name : forall c, name_key s' c = name_key s c; ks_ident : forall c, ident_key s' c = ident_key s c
+}.
+
+Lemma ksame_refl s : ksame s s. Proof. constructor; auto. Qed.
+Lemma ksame_trans a b c : ksame a b -> ksame b c -> ksame a c.
+Proof.
+  intros [A1 A2 A3 A4 A5] [B1 B2 B3 B4 B5]. constructor.
+  - congruence.
+  - congruence.
+  - congruence.
+  - intro x. rewrite (B4 x). apply A4.
+  - intro x. rewrite (B5 x). apply A5.
+Qed.
+Lemma nsq_ksame s s' : nsq s s' -> ksame s s'.
+Proof. intros [A B C D E _]. constructor; assumption. Qed.
+
+Lemma ksame_apply_namespace pl s e : ksame s (apply_namespace pl s e).
+Proof.
+  destruct (apply_namespace_spec pl s e) as [A [B [C [G _]]]]. constructor; try assumption;
+    intro c; destruct (G c) as [G1 G2]; unfold name_key, ident_key; rewrite ?G1, ?G2; reflexivity.
+Qed.
+
+Lemma dict_set_ns_facts s c v :
+  ksame s (fst (dict_set s c str_NS v)) /\
+  (forall y, ~ In y (subtree s c) -> nstab (fst (dict_set s c str_NS v)) y = nstab s y).
+Proof.
+  unfold dict_set, ns_dictionary_set. rewrite str_eqb_refl.
+  destruct (match sassoc str_NS (data s c) with Some v0 => val_eqb v0 v | None => false end); cbn [bindR ret fst].
+  - split; [apply nsq_ksame; eapply nsq_trans; [apply nsq_emit|apply nsq_write_ns]|reflexivity].
+  - destruct (ns_parent s c); [split; [apply ksame_refl|reflexivity]|].
+    destruct (pol_of_val v) as [pl|]; [|split; [apply ksame_refl|reflexivity]].
+    destruct (is_compliant pl s c); [|split; [apply ksame_refl|reflexivity]]. cbn [bindR ret fst]. split.
+    + eapply ksame_trans; [apply ksame_apply_namespace|]. apply nsq_ksame. eapply nsq_trans; [apply nsq_emit|apply nsq_write_ns].
+    + intros y Hy. cbn. apply apply_namespace_tab_other. exact Hy.
+Qed.
+
+Lemma dict_del_ns_facts s c :
+  ksame s (fst (dict_del s c str_NS)) /\
+  (forall y, ~ In y (subtree s c) -> nstab (fst (dict_del s c str_NS)) y = nstab s y).
+Proof.
+  unfold dict_del, ns_dictionary_delete. rewrite str_eqb_refl.
+  destruct (ns_parent s c); [split; [apply ksame_refl|reflexivity]|].
+  destruct (has_key s c str_NS); cbn [bindR ret fst].
+  - match goal with |- context [if ?b then _ else _] => destruct b end; cbn [fst ret raise]; split.
+    + apply nsq_ksame. eapply nsq_trans; [apply nsq_drop_namespace|]. eapply nsq_trans; [apply nsq_emit|apply nsq_erase_ns].
+    + intros y Hy. cbn. apply drop_namespace_tab_other. exact Hy.
+    + apply nsq_ksame. eapply nsq_trans; [apply nsq_drop_namespace|apply nsq_emit].
+    + intros y Hy. cbn. apply drop_namespace_tab_other. exact Hy.
+  - match goal with |- context [if ?b then _ else _] => destruct b end; cbn [fst ret raise]; split;
+      try reflexivity; apply nsq_ksame; [eapply nsq_trans; [apply nsq_emit|apply nsq_erase_ns]|apply nsq_emit].
+Qed.
+
+Lemma tabok_ksame s s' p t : ksame s s' -> TabOK s (kmem s) p t -> TabOK s' (kmem s') p t.
+Proof.
+  intros [A _ _ D E] T. apply (tabok_ext s s' (kmem s) (kmem s') p t T).
+  - intros. unfold kmem. rewrite A. tauto.
+  - intros. split; [apply D|apply E].
+Qed.
+
+Lemma ksame_sym s s' : ksame s s' -> ksame s' s.
+Proof. intros [A B C D E]. constructor; auto. Qed.
+
+Lemma nsinvm_add_no_table s M r p c : NsInvM s M -> nstab s p = None -> NsInvM s (mem_add M r p c).
+Proof.
+  intros H Hn p' t' Hp'. apply (tabok_ext s s M (mem_add M r p c) p' t' (H p' t' Hp')); [|intros; split; reflexivity].
+  intros r0 c0. unfold mem_add. split; [intros [A|[_ [-> _]]]; [exact A|congruence]|auto].
+Qed.
+
+Lemma tab_conflict_free tab (mem : id -> Prop) keyof c v :
+  SlotOK tab mem keyof -> ~ mem c -> tab_conflict tab v c = false -> sassoc v tab = None.
+Proof.
+  intros H Hc Hf. unfold tab_conflict in Hf. destruct (sassoc v tab) as [x|] eqn:E; [|reflexivity].
+  apply negb_false_iff, Nat.eqb_eq in Hf. subst x. apply H in E as [E _]. contradiction.
+Qed.
+
+Lemma nsinvm_ns_add s r p c :
+  Inv1a s -> InvT s -> NsInv s -> ns_rel r = true ->
+  kind_of s p = Some (rel_parent r) -> kind_of s c = Some (rel_child r) -> ~ In c (kids s r p) ->
+  let res := ns_add s p c (rel_child r) in
+  ksame s (fst res) /\ (snd res = None -> NsInvM (fst res) (mem_add (kmem s) r p c)).
+Proof.
+  intros Ha HT H Hr Hkp Hkc Hnin. cbn zeta. unfold ns_add.
+  set (idv := get_str s c str_IDENT). set (nmv := get_str s c str_NAME).
+  destruct (match nstab s p with Some t => _ | None => false end) eqn:Hconf; [split; [apply ksame_refl|discriminate]|].
+  set (mid := match sassoc str_NS (data s p) with
+              | Some pv => if match sassoc str_NS (data s c) with Some cv => val_eqb cv pv | None => false end then ret s else dict_set s c str_NS pv
+              | None => if has_key s c str_NS then dict_del s c str_NS else ret s end).
+  assert (Hmid : ksame s (fst mid) /\ NsInv (fst mid) /\ nstab (fst mid) p = nstab s p).
+  { assert (Hp : ~ In p (subtree s c)) by (apply (parent_not_in_subtree s r p c HT Hr Hkp Hkc)).
+    unfold mid. destruct (sassoc str_NS (data s p)) as [pv|].
+    - destruct (match sassoc str_NS (data s c) with Some cv => val_eqb cv pv | None => false end).
+      + split; [apply ksame_refl|split; [exact H|reflexivity]].
+      + destruct (dict_set_ns_facts s c pv) as [K Ht]. split; [exact K|split; [apply nsinv_dict_set; assumption|apply Ht; exact Hp]].
+    - destruct (has_key s c str_NS).
+      + destruct (dict_del_ns_facts s c) as [K Ht]. split; [exact K|split; [apply nsinv_dict_del; assumption|apply Ht; exact Hp]].
+      + split; [apply ksame_refl|split; [exact H|reflexivity]]. }
+  fold mid. destruct mid as [s1 [x|]]; cbn [bindR fst snd] in *.
+  - split; [apply Hmid|discriminate].
+  - destruct Hmid as [K [H1 Ht1]]. rewrite Ht1.
+    destruct (nstab s p) as [t|] eqn:Htp; cbn [fst snd ret].
+    2:{ split; [exact K|]. intros _. apply nsinvm_add_no_table; [|congruence].
+        apply (nsinvm_mem_ext s1 (kmem s1)); [|exact H1]. intros. unfold kmem. rewrite (ks_kids _ _ K). tauto. }
+    split; [constructor; try apply K|].
+    intros _.
+    (* the table of p, read in the state before the policy was passed down *)
+    assert (T0 : TabOK s (kmem s) p t) by (apply H; exact Htp).
+    apply orb_false_iff in Hconf as [Hci Hcn].
+    assert (Hfree_n : forall v, get_str s c str_NAME = Some v -> sassoc v (ns_names t (rel_child r)) = None).
+    { intros v Ev. fold nmv in Ev. rewrite Ev in Hcn. apply negb_false_iff in Hcn.
+      unfold ns_no_conflict in Hcn. rewrite str_eqb_refl in Hcn. apply negb_true_iff in Hcn.
+      apply (tab_conflict_free _ _ _ c v (tk_names _ _ _ _ T0 r Hr) Hnin Hcn). }
+    assert (Hfree_i : ns_pol t = PolEdif -> forall v, get_str s c str_IDENT = Some v -> sassoc (lower v) (ns_idents t (rel_child r)) = None).
+    { intros Hp v Ev. fold idv in Ev. rewrite Ev in Hci. apply negb_false_iff in Hci.
+      unfold ns_no_conflict in Hci. rewrite ident_ne_name, Hp, str_eqb_refl in Hci. apply negb_true_iff in Hci.
+      apply (tab_conflict_free _ _ _ c (lower v) (tk_idents _ _ _ _ T0 Hp r Hr) Hnin Hci). }
+    destruct (add_table_ok s (kmem s) r p c t Hr T0 Hnin Hfree_n Hfree_i) as [T2 _].
+    change (match nmv with
+            | Some v => ns_update (match idv with Some v0 => ns_update t (rel_child r) c str_IDENT (Some v0) v0 | None => t end) (rel_child r) c str_NAME (Some v) v
+            | None => match idv with Some v0 => ns_update t (rel_child r) c str_IDENT (Some v0) v0 | None => t end
+            end) with (add_table s t (rel_child r) c).
+    intros p' t' Hp'. cbn in Hp'. unfold upd in Hp'. destruct (Nat.eqb_spec p' p) as [->|Hne].
+    + injection Hp' as <-. apply (tabok_ext s _ _ _ p _ T2); [tauto|].
+      intros r0 c0 _ _. split; [apply (ks_name _ _ K)|apply (ks_ident _ _ K)].
+    + pose proof (H1 p' t' Hp') as T'. apply (tabok_ext s1 _ (kmem s1) _ p' t' T').
+      * intros r0 c0. unfold mem_add, kmem. rewrite (ks_kids _ _ K). split; [intros [A|[_ [E _]]]; [exact A|contradiction]|auto].
+      * intros; split; reflexivity.
+Qed.
+
+(* ---- NamespaceManager.remove ---- *)
+Lemma nsinvm_ns_remove_child s M r p c :
+  NsInvM s M -> ns_rel r = true -> M r p c ->
+  NsInvM (ns_remove_child s p c (rel_child r)) (mem_del M r p c).
+Proof.
+  intros H Hr Hc. unfold ns_remove_child. destruct (nstab s p) as [t|] eqn:Htp.
+  2:{ intros p' t' Hp'. apply (tabok_ext s s M _ p' t' (H p' t' Hp')); [|intros; split; reflexivity].
+      intros r0 c0. unfold mem_del. split; [tauto|]. intro A. split; [exact A|]. intros [_ [-> _]]. congruence. }
+  destruct (H p t Htp) as [T1 T2].
+  set (t1 := ns_remove t (rel_child r) str_IDENT (get_str s c str_IDENT)).
+  set (t2 := ns_remove t1 (rel_child r) str_NAME (get_str s c str_NAME)).
+  intros p' t' Hp'. cbn in Hp'. unfold upd in Hp'. destruct (Nat.eqb_spec p' p) as [->|Hne].
+  - injection Hp' as <-. constructor.
+    + intros r0 Hr0. unfold t2. rewrite ns_remove_names, str_eqb_refl. unfold t1.
+      assert (E : forall k', ns_names (ns_remove t (rel_child r) str_IDENT (get_str s c str_IDENT)) k' = ns_names t k')
+        by (intro k'; rewrite ns_remove_names, ident_ne_name; reflexivity).
+      destruct (rel_eq_dec r0 r) as [->|Hrr].
+      * rewrite kind_eqb_refl. pose proof (slot_remove _ _ (name_key s) c (T1 r Hr) Hc) as S. unfold name_key in S at 1.
+        eapply slot_ext; [destruct (get_str s c str_NAME); rewrite !E; exact S|intro c0; unfold mem_del; split; [intros [A B]; split; [exact A|intros ->; apply B; auto]|intros [A B]; split; [exact A|intros [_ [_ ->]]; apply B; reflexivity]]|intros; reflexivity].
+      * assert (Hkk : kind_eqb (rel_child r0) (rel_child r) = false).
+        { destruct (kind_eqb (rel_child r0) (rel_child r)) eqn:E0; [|reflexivity]. apply kind_eqb_eq in E0. exfalso. apply Hrr. apply rel_child_inj; assumption. }
+        rewrite Hkk. eapply slot_ext; [destruct (get_str s c str_NAME); rewrite E; apply (T1 r0 Hr0)|intro c0; unfold mem_del; split; [intros [A _]; exact A|intro A; split; [exact A|intros [E0 _]; contradiction]]|intros; reflexivity].
+    + unfold t2. rewrite ns_remove_pol. unfold t1. rewrite ns_remove_pol. intros Hp r0 Hr0.
+      rewrite ns_remove_idents, str_eqb_refl, ns_remove_idents, ident_ne_name, Hp, str_eqb_refl.
+      destruct (rel_eq_dec r0 r) as [->|Hrr].
+      * rewrite kind_eqb_refl. pose proof (slot_remove _ _ (ident_key s) c (T2 Hp r Hr) Hc) as S. unfold ident_key in S at 1.
+        eapply slot_ext; [destruct (get_str s c str_IDENT); exact S|intro c0; unfold mem_del; split; [intros [A B]; split; [exact A|intros ->; apply B; auto]|intros [A B]; split; [exact A|intros [_ [_ ->]]; apply B; reflexivity]]|intros; reflexivity].
+      * assert (Hkk : kind_eqb (rel_child r0) (rel_child r) = false).
+        { destruct (kind_eqb (rel_child r0) (rel_child r)) eqn:E0; [|reflexivity]. apply kind_eqb_eq in E0. exfalso. apply Hrr. apply rel_child_inj; assumption. }
+        rewrite Hkk. eapply slot_ext; [destruct (get_str s c str_IDENT); apply (T2 Hp r0 Hr0)|intro c0; unfold mem_del; split; [intros [A _]; exact A|intro A; split; [exact A|intros [E0 _]; contradiction]]|intros; reflexivity].
+  - apply (tabok_ext s _ M _ p' t' (H p' t' Hp')); [|intros; split; reflexivity].
+    intros r0 c0. unfold mem_del. split; [tauto|]. intro A. split; [exact A|]. intros [_ [E _]]. contradiction.
+Qed.
+
+Lemma kids_upd2_ns (f : rel -> id -> list id) r p l r' p' :
+  upd2 f r p l r' p' = if rel_eqb r' r && Nat.eqb p' p then l else f r' p'.
+Proof. unfold upd2, upd. destruct (rel_eqb r' r); cbn [andb]; [|reflexivity]. destruct (Nat.eqb p' p); reflexivity. Qed.
+
+(* ---- the editing calls ---- *)
+Lemma nsinv_fields s s' :
+  (forall r, ns_rel r = true -> kids s' r = kids s r) -> (forall y, nstab s' y = nstab s y) -> data s' = data s ->
+  NsInv s -> NsInv s'.
+Proof.
+  intros Hk Ht Hd H. apply (nsinvm_mem_ext s' (kmem s)).
+  - intros r p c Hr. unfold kmem. rewrite (Hk r Hr). tauto.
+  - apply (nsinvm_same s); [exact H|exact Ht|]. intros. unfold get_str. rewrite Hd. reflexivity.
+Qed.
+
+Lemma is_kind_kind s x k : is_kind s x k = true -> kind_of s x = Some k.
+Proof. unfold is_kind. destruct (kind_of s x) as [k0|]; [|discriminate]. intro H. apply kind_eqb_eq in H. subst. reflexivity. Qed.
+
+Lemma add_post_fields s r p c :
+  kids (add_post s r p c) = kids s /\ nstab (add_post s r p c) = nstab s /\ data (add_post s r p c) = data s /\
+  kind_of (add_post s r p c) = kind_of s /\ par (add_post s r p c) = par s.
+Proof.
+  assert (G : forall f l s0, (forall s1 x, kids (f s1 x) = kids s1 /\ nstab (f s1 x) = nstab s1 /\ data (f s1 x) = data s1 /\ kind_of (f s1 x) = kind_of s1 /\ par (f s1 x) = par s1) ->
+              kids (fold_ids f l s0) = kids s0 /\ nstab (fold_ids f l s0) = nstab s0 /\ data (fold_ids f l s0) = data s0 /\ kind_of (fold_ids f l s0) = kind_of s0 /\ par (fold_ids f l s0) = par s0).
+  { intros f l. induction l as [|x l IH]; intros s0 Hf; cbn; [repeat split|].
+    destruct (Hf s0 x) as [A [B [C [D E]]]]. destruct (IH (f s0 x) Hf) as [A' [B' [C' [D' E']]]]. repeat split; congruence. }
+  unfold add_post. destruct r; try (repeat split; reflexivity).
+  - apply G. intros s1 n. apply G. intros; repeat split; reflexivity.
+  - destruct (par s RPorts p); [|repeat split; reflexivity]. apply G. intros; repeat split; reflexivity.
+Qed.
+
+Lemma nsinv_op_add s r p c pos : Inv1a s -> InvT s -> NsInv s -> NsInv (fst (op_add s r p c pos)).
+Proof.
+  intros Ha HT H. unfold op_add, guard.
+  destruct (is_kind s p (rel_parent r) && is_kind s c (rel_child r)) eqn:Hk; [|exact H].
+  apply andb_true_iff in Hk as [Hkp Hkc]. apply is_kind_kind in Hkp, Hkc.
+  destruct (add_guard1 s r p c); [|exact H].
+  destruct (par s r c) eqn:Hpar; [exact H|].
+  assert (Hnin : ~ In c (kids s r p)) by (intro Hin; apply (i1_kids s Ha) in Hin; congruence).
+  destruct (ns_rel r) eqn:Hr.
+  - destruct (nsinvm_ns_add s r p c Ha HT H Hr Hkp Hkc Hnin) as [K Hm]. cbn zeta in *.
+    pose proof (ns_add_refused s p c (rel_child r)) as Href.
+    destruct (ns_add s p c (rel_child r)) as [s1 [x|]]; cbn [bindR fst snd ret] in *.
+    + rewrite Href by discriminate. exact H.
+    + specialize (Hm eq_refl).
+      match goal with |- NsInv (add_post ?s3 r p c) => set (s3' := s3) end.
+      destruct (add_post_fields s3' r p c) as [A [B [C _]]].
+      apply (nsinvm_mem_ext _ (mem_add (kmem s) r p c)).
+      * intros r0 p0 c0 _. unfold kmem, mem_add. rewrite A. unfold s3'. cbn. rewrite kids_upd2_ns.
+        rewrite (ks_kids _ _ K).
+        destruct (rel_eqb r0 r) eqn:Er; cbn [andb].
+        -- apply rel_eqb_spec in Er. subst r0. destruct (Nat.eqb_spec p0 p) as [->|Hne].
+           ++ rewrite py_insert_In. split; [intros [->|A0]; auto|intros [A0|[_ [_ ->]]]; auto].
+           ++ split; [auto|intros [A0|[_ [E _]]]; [exact A0|contradiction]].
+        -- split; [auto|intros [A0|[E _]]; [exact A0|subst; rewrite rel_eqb_refl in Er; discriminate]].
+      * apply (nsinvm_same s1); [exact Hm|intro; rewrite B; reflexivity|]. intros. unfold get_str. rewrite C. reflexivity.
+  - cbn [bindR ret fst].
+    match goal with |- NsInv (add_post ?s3 r p c) => set (s3' := s3) end.
+    destruct (add_post_fields s3' r p c) as [A [B [C _]]].
+    apply (nsinv_fields s); [|intro; rewrite B; reflexivity|rewrite C; reflexivity|exact H].
+    intros r0 Hr0. rewrite A. unfold s3'. cbn. unfold upd2. destruct (rel_eqb r0 r) eqn:Er; [|reflexivity].
+    apply rel_eqb_spec in Er. subst. congruence.
+Qed.
+
+(* removal *)
+Record q3 (s s' : state) : Prop := mkQ3 { q3_kids : kids s' = kids s; q3_data : data s' = data s; q3_tab : nstab s' = nstab s;
+                                         q3_kind : kind_of s' = kind_of s }.
+Lemma q3_refl s : q3 s s. Proof. constructor; reflexivity. Qed.
+Lemma q3_trans a b c : q3 a b -> q3 b c -> q3 a c. Proof. intros [] []. constructor; congruence. Qed.
+Lemma q3_bind r f s : q3 s (fst r) -> (forall s1, q3 s1 (fst (f s1))) -> q3 s (fst (r >>= f)).
+Proof. destruct r as [s1 [x|]]; cbn; intros H1 H2; [exact H1|]. eapply q3_trans; [exact H1|apply H2]. Qed.
+Lemma q3_fold_idsR f l : (forall s x, q3 s (fst (f s x))) -> forall s, q3 s (fst (fold_idsR f l s)).
+Proof. intro H. induction l as [|x l IH]; intro s; cbn; [apply q3_refl|]. apply q3_bind; [apply H|apply IH]. Qed.
+Lemma q3_drop_outer s n i : q3 s (fst (drop_outer s n i)).
+Proof. unfold drop_outer. destruct (assoc i (ipins s n)) as [[w|]|]; constructor; reflexivity. Qed.
+
+Lemma remove_core_q3 s r p c :
+  q3 (if ns_rel r then ns_remove_child s p c (rel_child r) else s) (fst (remove_core s r p c)).
+Proof.
+  unfold remove_core. set (s1 := if ns_rel r then ns_remove_child s p c (rel_child r) else s).
+  apply q3_bind; [|intro; constructor; reflexivity].
+  eapply q3_trans with (b := emit s1 (ERemove r p c)); [constructor; reflexivity|].
+  destruct r; try apply q3_refl.
+  - apply q3_fold_idsR. intros s0 n. apply q3_fold_idsR. intros; apply q3_drop_outer.
+  - destruct (par _ RPorts p); [|apply q3_refl]. apply q3_fold_idsR. intros; apply q3_drop_outer.
+Qed.
+
+Lemma q3_ns_remove_child s p c ck : kids (ns_remove_child s p c ck) = kids s /\ data (ns_remove_child s p c ck) = data s /\ kind_of (ns_remove_child s p c ck) = kind_of s.
+Proof. unfold ns_remove_child. destruct (nstab s p); repeat split; reflexivity. Qed.
+
+Lemma nsinvm_q3 s s' M : q3 s s' -> NsInvM s M -> NsInvM s' M.
+Proof.
+  intros [A B C _] H. apply (nsinvm_same s); [exact H|intro; rewrite C; reflexivity|]. intros. unfold get_str. rewrite B. reflexivity.
+Qed.
+
+(* one removed child: the state after _remove_* (table edited, container not yet) *)
+Lemma nsinvm_remove_core s M r p c :
+  NsInvM s M -> (ns_rel r = true -> M r p c) ->
+  NsInvM (fst (remove_core s r p c)) (if ns_rel r then mem_del M r p c else M) /\
+  kids (fst (remove_core s r p c)) = kids s /\ kind_of (fst (remove_core s r p c)) = kind_of s.
+Proof.
+  intros H Hc. pose proof (remove_core_q3 s r p c) as Q. destruct (q3_ns_remove_child s p c (rel_child r)) as [A [B C]].
+  destruct (ns_rel r) eqn:Hr.
+  - split; [apply (nsinvm_q3 _ _ _ Q); apply nsinvm_ns_remove_child; [exact H|exact Hr|apply Hc; reflexivity]|].
+    split; [rewrite (q3_kids _ _ Q); exact A|rewrite (q3_kind _ _ Q); exact C].
+  - split; [apply (nsinvm_q3 _ _ _ Q); exact H|]. split; [apply (q3_kids _ _ Q)|apply (q3_kind _ _ Q)].
+Qed.
+
+Lemma nsinv_op_remove s r p c : Inv1a s -> NsInv s ->
+  snd (op_remove s r p c) <> Some XStuck -> NsInv (fst (op_remove s r p c)).
+Proof.
+  intros Ha H. unfold op_remove, guard.
+  destruct (_ && _); [|intros _; exact H].
+  destruct (par_is s r c p) eqn:Hpar; [|intros _; exact H].
+  assert (Hin : In c (kids s r p)).
+  { apply (i1_kids s Ha). unfold par_is in Hpar. destruct (par s r c) as [q|]; [|discriminate]. apply Nat.eqb_eq in Hpar. congruence. }
+  destruct (nsinvm_remove_core s (kmem s) r p c H (fun _ => Hin)) as [Hm [Hk _]].
+  pose proof (only_stuck_remove_core s r p c) as Ho.
+  destruct (remove_core s r p c) as [s1 [x|]]; cbn [bindR fst snd ret] in *.
+  - unfold only_stuck in Ho. cbn in Ho. subst x. intro Hs. exfalso. apply Hs. reflexivity.
+  - intros _. destruct (ns_rel r) eqn:Hr.
+    + apply (nsinvm_mem_ext _ (mem_del (kmem s) r p c)); [|apply (nsinvm_same s1); [exact Hm|intro; reflexivity|intros; reflexivity]].
+      intros r0 p0 c0 _. unfold kmem, mem_del. cbn. rewrite kids_upd2_ns, Hk.
+      destruct (rel_eqb r0 r) eqn:Er; cbn [andb].
+      * apply rel_eqb_spec in Er. subst r0. destruct (Nat.eqb_spec p0 p) as [->|Hne].
+        -- rewrite (remove_first_In c c0 _ (i1_nodup s Ha r p)). split; [intros [A B]; split; [exact A|intros [_ [_ ->]]; apply B; reflexivity]|intros [A B]; split; [exact A|intros ->; apply B; auto]].
+        -- split; [intro A; split; [exact A|intros [_ [E _]]; contradiction]|tauto].
+      * split; [intro A; split; [exact A|intros [E _]; subst; rewrite rel_eqb_refl in Er; discriminate]|tauto].
+    + apply (nsinv_fields s1).
+      * intros r0 Hr0. cbn. unfold upd2. destruct (rel_eqb r0 r) eqn:Er; [apply rel_eqb_spec in Er; subst; congruence|reflexivity].
+      * intro; reflexivity.
+      * reflexivity.
+      * apply (nsinv_kids s); [exact Hk|exact Hm].
+Qed.
+
+Definition mem_del_list (M : Mem) (r : rel) (p : id) (l : list id) : Mem :=
+  fun r' p' c' => M r' p' c' /\ ~ (r' = r /\ p' = p /\ In c' l).
+
+Lemma nsinvm_fold_remove s0 r p : ns_rel r = true -> forall l done s,
+  NoDup (done ++ l) -> (forall c, In c l -> In c (kids s0 r p)) ->
+  NsInvM s (mem_del_list (kmem s0) r p done) -> kids s = kids s0 ->
+  let res := fold_idsR (fun s c => remove_core s r p c) l s in
+  (snd res = None -> NsInvM (fst res) (mem_del_list (kmem s0) r p (done ++ l))) /\ kids (fst res) = kids s0.
+Proof.
+  intros Hr. induction l as [|c l IH]; intros done s Hnd Hin H Hk; cbn [fold_idsR].
+  - rewrite app_nil_r. split; [intros _; exact H|exact Hk].
+  - assert (Hc : mem_del_list (kmem s0) r p done r p c).
+    { split; [apply Hin; left; reflexivity|]. intros [_ [_ Hd]]. apply (NoDup_remove_2 done l c Hnd). apply in_or_app. left. exact Hd. }
+    destruct (nsinvm_remove_core s _ r p c H (fun _ => Hc)) as [Hm [Hk1 _]]. rewrite Hr in Hm.
+    destruct (remove_core s r p c) as [s1 [x|]]; cbn [bindR fst snd] in *.
+    + split; [discriminate|congruence].
+    + replace (done ++ c :: l) with ((done ++ [c]) ++ l) in * by (rewrite <- app_assoc; reflexivity).
+      apply IH; [exact Hnd|intros c0 Hc0; apply Hin; right; exact Hc0| |congruence].
+      apply (nsinvm_mem_ext s1 (mem_del (mem_del_list (kmem s0) r p done) r p c)); [|exact Hm].
+      intros r0 p0 c0 _. unfold mem_del, mem_del_list. rewrite in_app_iff. cbn [In]. split.
+      * intros [A B]. split; [split; [exact A|]|].
+        -- intros [E1 [E2 E3]]. apply B. auto.
+        -- intros [E1 [E2 E3]]. apply B. subst. auto.
+      * intros [[A B] C]. split; [exact A|]. intros [E1 [E2 [E3|[E3|[]]]]]; [apply B; auto|apply C; subst; auto].
+Qed.
+
+Lemma nsinv_op_remove_from s r p cs : Inv1a s -> NsInv s ->
+  snd (op_remove_from s r p cs) <> Some XStuck -> NsInv (fst (op_remove_from s r p cs)).
+Proof.
+  intros Ha H. unfold op_remove_from, guard.
+  destruct (_ && _); [|intros _; exact H].
+  destruct (forallb (fun c => par_is s r c p) cs) eqn:Hall; [|intros _; exact H].
+  set (order := if walks_container r then filter (fun x => memb x cs) (kids s r p) else dedup cs).
+  assert (Hcs : forall c, In c cs -> In c (kids s r p)).
+  { intros c Hc. rewrite forallb_forall in Hall. specialize (Hall c Hc). apply (i1_kids s Ha).
+    unfold par_is in Hall. destruct (par s r c) as [q|]; [|discriminate]. apply Nat.eqb_eq in Hall. congruence. }
+  assert (Hord : forall c, In c order <-> In c cs).
+  { intro c. unfold order. destruct (walks_container r).
+    - rewrite filter_In. split; [intros [_ E]; apply memb_In; exact E|intro E; split; [apply Hcs; exact E|apply memb_In; exact E]].
+    - rewrite <- !memb_In, memb_dedup. tauto. }
+  assert (Hnd : NoDup order).
+  { unfold order. destruct (walks_container r); [apply NoDup_filter; apply (i1_nodup s Ha)|apply NoDup_dedup]. }
+  pose proof (only_stuck_fold_idsR (fun s0 c => remove_core s0 r p c) order (fun s0 c => only_stuck_remove_core s0 r p c) s) as Ho.
+  destruct (ns_rel r) eqn:Hr.
+  - destruct (nsinvm_fold_remove s r p Hr order [] s Hnd (fun c Hc => Hcs c (proj1 (Hord c) Hc))) as [Hm Hk].
+    { apply (nsinvm_mem_ext s (kmem s)); [|exact H]. intros r0 p0 c0 _. unfold mem_del_list. cbn. tauto. }
+    { reflexivity. }
+    cbn zeta in *. destruct (fold_idsR _ order s) as [s1 [x|]]; cbn [bindR fst snd ret] in *.
+    + unfold only_stuck in Ho. cbn in Ho. subst x. intro Hs. exfalso. apply Hs. reflexivity.
+    + intros _. specialize (Hm eq_refl). cbn [app] in Hm.
+      apply (nsinvm_mem_ext _ (mem_del_list (kmem s) r p order)); [|apply (nsinvm_same s1); [exact Hm|intro; reflexivity|intros; reflexivity]].
+      intros r0 p0 c0 _. unfold kmem, mem_del_list. cbn. rewrite kids_upd2_ns, Hk.
+      destruct (rel_eqb r0 r) eqn:Er; cbn [andb].
+      * apply rel_eqb_spec in Er. subst r0. destruct (Nat.eqb_spec p0 p) as [->|Hne].
+        -- rewrite remove_all_in_In, Hord. split; [intros [A B]; split; [exact A|intros [_ [_ C]]; contradiction]|intros [A B]; split; [exact A|intro C; apply B; auto]].
+        -- split; [intro A; split; [exact A|intros [_ [E _]]; contradiction]|tauto].
+      * split; [intro A; split; [exact A|intros [E _]; subst; rewrite rel_eqb_refl in Er; discriminate]|tauto].
+  - (* pins / wires: no table is concerned *)
+    assert (Hq : forall l s0, kids (fst (fold_idsR (fun s1 c => remove_core s1 r p c) l s0)) = kids s0 /\
+                              nstab (fst (fold_idsR (fun s1 c => remove_core s1 r p c) l s0)) = nstab s0 /\
+                              data (fst (fold_idsR (fun s1 c => remove_core s1 r p c) l s0)) = data s0).
+    { induction l as [|c l IH]; intro s0; cbn [fold_idsR]; [repeat split|].
+      pose proof (remove_core_q3 s0 r p c) as Q. rewrite Hr in Q.
+      destruct (remove_core s0 r p c) as [s1 [x|]]; cbn [bindR fst] in *; [destruct Q; repeat split; assumption|].
+      destruct (IH s1) as [A [B C]]. destruct Q as [A' B' C' _]. repeat split; congruence. }
+    destruct (Hq order s) as [A [B C]].
+    destruct (fold_idsR _ order s) as [s1 [x|]]; cbn [bindR fst snd ret] in *.
+    + unfold only_stuck in Ho. cbn in Ho. subst x. intro Hs. exfalso. apply Hs. reflexivity.
+    + intros _. apply (nsinv_fields s); [|intro; cbn; rewrite B; reflexivity|cbn; rewrite C; reflexivity|exact H].
+      intros r0 Hr0. cbn. unfold upd2. destruct (rel_eqb r0 r) eqn:Er; [apply rel_eqb_spec in Er; subst; congruence|rewrite A; reflexivity].
+Qed.
+
+(* ---- typing of containment is an invariant ---- *)
+Record tstep (s s' : state) : Prop := mkTstep {
+  ts_grow : forall x k, kind_of s x = Some k -> kind_of s' x = Some k;
+  ts_add : forall r p c, In c (kids s' r p) ->
+           In c (kids s r p) \/ (kind_of s' c = Some (rel_child r) /\ kind_of s' p = Some (rel_parent r))
+}.
+
+Lemma tstep_refl s : tstep s s. Proof. constructor; auto. Qed.
+Lemma tstep_trans a b c : tstep a b -> tstep b c -> tstep a c.
+Proof.
+  intros [A1 A2] [B1 B2]. constructor; [auto|]. intros r p x Hx.
+  destruct (B2 r p x Hx) as [H|H]; [|right; exact H]. destruct (A2 r p x H) as [H'|[H1 H2]]; [left; exact H'|right; auto].
+Qed.
+Lemma tstep_invt s s' : tstep s s' -> InvT s -> InvT s'.
+Proof.
+  intros [A B] HT r p c Hc. destruct (B r p c Hc) as [H|H]; [|exact H].
+  destruct (HT r p c H) as [H1 H2]. split; apply A; assumption.
+Qed.
+Lemma tstep_same s s' : kids s' = kids s -> kind_of s' = kind_of s -> tstep s s'.
+Proof. intros A B. constructor; [intros; rewrite B; assumption|intros r p c; rewrite A; auto]. Qed.
+Lemma tstep_fw s s' : frame_w s s' -> tstep s s'.
+Proof. intros []. apply tstep_same; assumption. Qed.
+Lemma tstep_struct s s' : struct_eq s s' -> tstep s s'.
+Proof. intro H. apply tstep_same; [apply (se_kids _ _ H)|apply (se_kind _ _ H)]. Qed.
+Lemma tstep_bind r f s : tstep s (fst r) -> (forall s1, tstep s1 (fst (f s1))) -> tstep s (fst (r >>= f)).
+Proof. destruct r as [s1 [x|]]; cbn; intros H1 H2; [exact H1|]. eapply tstep_trans; [exact H1|apply H2]. Qed.
+Lemma tstep_guard b x s k : (forall s1, tstep s1 (fst (k s1))) -> tstep s (fst (guard b x s k)).
+Proof. intro H. unfold guard. destruct b; [apply H|apply tstep_refl]. Qed.
+Lemma tstep_fold_idsR f l : (forall s x, tstep s (fst (f s x))) -> forall s, tstep s (fst (fold_idsR f l s)).
+Proof. intro H. induction l as [|x l IH]; intro s; cbn; [apply tstep_refl|]. apply tstep_bind; [apply H|apply IH]. Qed.
+
+Lemma tstep_op_add s r p c pos : tstep s (fst (op_add s r p c pos)).
+Proof.
+  unfold op_add, guard.
+  destruct (is_kind s p (rel_parent r) && is_kind s c (rel_child r)) eqn:Hk; [|apply tstep_refl].
+  apply andb_true_iff in Hk as [Hkp Hkc]. apply is_kind_kind in Hkp, Hkc.
+  destruct (add_guard1 s r p c); [|apply tstep_refl]. destruct (par s r c); [apply tstep_refl|].
+  pose proof (se_ns_add s p c (rel_child r)) as Hse.
+  set (res := if ns_rel r then ns_add s p c (rel_child r) else ret s).
+  assert (H1 : struct_eq s (fst res)) by (unfold res; destruct (ns_rel r); [exact Hse|apply struct_eq_refl]).
+  destruct res as [s1 [x|]]; cbn [bindR fst ret] in *; [apply tstep_struct; exact H1|].
+  destruct (add_post_fields (set_par (set_kids (emit s1 (EAdd r p c)) r p (py_insert pos c (kids (emit s1 (EAdd r p c)) r p))) r c (Some p)) r p c) as [A [_ [_ [B _]]]].
+  constructor.
+  - intros x k Hx. rewrite B. cbn. rewrite (se_kind _ _ H1). exact Hx.
+  - intros r0 p0 c0. rewrite A, B. cbn. rewrite kids_upd2_ns, (se_kids _ _ H1), (se_kind _ _ H1).
+    destruct (rel_eqb r0 r) eqn:Er; cbn [andb]; [|auto]. apply rel_eqb_spec in Er. subst r0.
+    destruct (Nat.eqb_spec p0 p) as [->|]; [|auto]. rewrite py_insert_In. intros [->|H]; [right; auto|left; exact H].
+Qed.
+
+Lemma tstep_remove_core s r p c : tstep s (fst (remove_core s r p c)).
+Proof.
+  pose proof (remove_core_q3 s r p c) as Q. destruct (q3_ns_remove_child s p c (rel_child r)) as [A [_ C]].
+  apply tstep_same; [rewrite (q3_kids _ _ Q)|rewrite (q3_kind _ _ Q)]; destruct (ns_rel r); auto.
+Qed.
+
+Lemma tstep_set_kids_sub s r p l : (forall x, In x l -> In x (kids s r p)) -> tstep s (set_kids s r p l).
+Proof.
+  intro H. constructor; [auto|]. intros r0 p0 c0. cbn. rewrite kids_upd2_ns.
+  destruct (rel_eqb r0 r) eqn:Er; cbn [andb]; [|auto]. apply rel_eqb_spec in Er. subst r0.
+  destruct (Nat.eqb_spec p0 p) as [->|]; [|auto]. intro Hx. left. apply H. exact Hx.
+Qed.
+
+Lemma tstep_op_remove s r p c : tstep s (fst (op_remove s r p c)).
+Proof.
+  unfold op_remove. repeat (apply tstep_guard; intro). apply tstep_bind; [apply tstep_remove_core|].
+  intro s2. apply tstep_set_kids_sub. intros x Hx. apply (remove_first_In_sub c x _ Hx).
+Qed.
+
+Lemma tstep_op_remove_from s r p cs : tstep s (fst (op_remove_from s r p cs)).
+Proof.
+  unfold op_remove_from. repeat (apply tstep_guard; intro). apply tstep_bind; [apply tstep_fold_idsR; intros; apply tstep_remove_core|].
+  intro s2. apply tstep_set_kids_sub. intros x Hx. apply remove_all_in_In in Hx. apply Hx.
+Qed.
+
+Lemma tstep_alloc s k : Fresh s -> tstep s (fst (alloc s k)).
+Proof.
+  intro F. unfold alloc. cbn. constructor; [|auto]. intros x k0 Hx. cbn. unfold upd.
+  destruct (Nat.eqb_spec x (next s)) as [->|]; [|exact Hx]. rewrite (f_kind s F (next s) (Nat.le_refl _)) in Hx. discriminate.
+Qed.
+
+Lemma tstep_construct s k nm props : Fresh s -> tstep s (fst (fst (construct s k nm props))).
+Proof.
+  intro F. destruct (construct_frame s k nm props) as [A [_ [_ [_ B]]]]. constructor.
+  - intros x k0 Hx. rewrite B. unfold upd. destruct (Nat.eqb_spec x (next s)) as [->|]; [|exact Hx].
+    rewrite (f_kind s F (next s) (Nat.le_refl _)) in Hx. discriminate.
+  - intros r p c. rewrite A. auto.
+Qed.
+
+Lemma tstep_create_items r p : forall n s, Fresh s -> tstep s (fst (create_items s r p n)).
+Proof.
+  induction n as [|n IH]; intros s F; cbn [create_items]; [apply tstep_refl|].
+  pose proof (fresh_alloc s (rel_child r) F) as F0. pose proof (tstep_alloc s (rel_child r) F) as T0.
+  unfold alloc in *. cbn [fst] in *. cbn zeta.
+  eapply tstep_trans; [exact T0|]. 
+  pose proof (fresh_op_add _ r p (next s) None F0) as F1.
+  pose proof (tstep_op_add (s <| next := S (next s) |> <| kind_of ::= fun f => upd f (next s) (Some (rel_child r)) |>) r p (next s) None) as T1.
+  destruct (op_add _ r p (next s) None) as [s1 [x|]]; cbn [bindR fst] in *; [exact T1|].
+  eapply tstep_trans; [exact T1|apply IH; exact F1].
+Qed.
+
+Lemma tstep_op_set_reference s x v : tstep s (fst (op_set_reference s x v)).
+Proof.
+  destruct (fw_op_set_reference_but_iref s x v) as [A [_ [_ [B _]]]]. apply tstep_same; assumption.
+Qed.
+
+Theorem step_invt s o : Fresh s -> InvT s -> InvT (fst (step s o)).
+Proof.
+  intros F HT. apply (tstep_invt s); [|exact HT]. destruct o; cbn [step].
+  - apply tstep_construct; exact F.
+  - unfold guard. destruct (_ && _); [|apply tstep_refl]. unfold create_and_add.
+    pose proof (tstep_construct s (rel_child r) nm props F) as Tc.
+    pose proof (fresh_construct s (rel_child r) nm props F) as Fc.
+    destruct (construct s (rel_child r) nm props) as [res x]. cbn [fst] in *.
+    destruct res as [s1 [e|]]; cbn [bindR fst] in *; [exact Tc|].
+    pose proof (tstep_op_add s1 r p x None) as Ta. pose proof (fresh_op_add s1 r p x None Fc) as Fa.
+    destruct (op_add s1 r p x None) as [s2 [e|]]; cbn [bindR fst] in *; [eapply tstep_trans; eassumption|].
+    eapply tstep_trans; [exact Tc|]. eapply tstep_trans; [exact Ta|].
+    destruct r; try apply tstep_refl.
+    + apply tstep_create_items; exact Fa.
+    + apply tstep_create_items; exact Fa.
+    + apply tstep_op_set_reference.
+  - unfold guard. destruct (_ && _); [|apply tstep_refl]. apply tstep_create_items; exact F.
+  - apply tstep_op_add.
+  - apply tstep_op_remove.
+  - apply tstep_op_remove_from.
+  - unfold op_reorder, guard. destruct (is_kind _ _ _); [|apply tstep_refl].
+    destruct (nodupb l && seteqb (kids s r p) l) eqn:Hg; [|apply tstep_refl].
+    apply andb_true_iff in Hg as [_ Hs]. rewrite seteqb_spec in Hs. cbn [fst ret].
+    apply tstep_set_kids_sub. intros x Hx. apply Hs. exact Hx.
+  - unfold op_reorder_wire. repeat (apply tstep_guard; intro). apply tstep_same; reflexivity.
+  - unfold op_connect. apply tstep_guard. intro s1. destruct p as [i|n i|]; cbn; try apply tstep_refl.
+    + destruct (ipwire s1 i); cbn; [apply tstep_refl|apply tstep_same; reflexivity].
+    + destruct (assoc i (ipins s1 n)) as [[w0|]|]; cbn; try apply tstep_refl. apply tstep_same; reflexivity.
+  - unfold op_disconnect. repeat (apply tstep_guard; intro). destruct p; apply tstep_same; reflexivity.
+  - unfold op_disconnect_from. repeat (apply tstep_guard; intro). cbn [fst ret].
+    match goal with |- tstep ?sx (set_wpins (fold_left ?f ?l ?sx) _ _) =>
+      apply (tstep_trans sx (fold_left f l sx)); [|apply tstep_same; reflexivity];
+      apply tstep_fw; apply fw_fold_left; intros sq q; destruct q; constructor; reflexivity end.
+  - apply tstep_op_set_reference.
+  - unfold op_set_top, guard. destruct (_ && _); [|apply tstep_refl].
+    assert (T0 : tstep s (clear_old_top (emit s (ETop n a)) n)) by (apply tstep_same; unfold clear_old_top; destruct (top _ n); reflexivity).
+    assert (F0 : Fresh (clear_old_top (emit s (ETop n a)) n)).
+    { apply (fresh_same s); try (unfold clear_old_top; destruct (top _ n); reflexivity). exact F. }
+    destruct a as [x|d|].
+    + eapply tstep_trans; [exact T0|apply tstep_same; reflexivity].
+    + pose proof (tstep_construct _ KInstance None [] F0) as Tc.
+      destruct (construct (clear_old_top (emit s (ETop n (TopDef d))) n) KInstance None []) as [res t]. cbn [fst] in Tc.
+      eapply tstep_trans; [exact T0|]. apply tstep_bind; [exact Tc|]. intro s2.
+      apply tstep_bind; [apply tstep_op_set_reference|]. intro s3.
+      apply tstep_same; unfold clear_old_top; cbn; destruct (top _ n); reflexivity.
+    + eapply tstep_trans; [exact T0|apply tstep_same; reflexivity].
+  - apply tstep_guard. intro. apply tstep_struct, se_op_set_name.
+  - apply tstep_guard. intro. apply tstep_struct, se_op_del_name.
+  - apply tstep_guard. intro. apply tstep_struct, se_dict_set.
+  - apply tstep_guard. intro. apply tstep_struct, se_dict_del.
+  - apply tstep_guard. intro. apply tstep_struct, se_dict_pop.
+  - apply tstep_guard. intro. apply tstep_same; reflexivity.
+  - repeat (apply tstep_guard; intro). apply tstep_same; reflexivity.
+  - apply tstep_guard. intro. apply tstep_same; reflexivity.
+  - apply tstep_guard. intro. apply tstep_same; reflexivity.
+  - apply tstep_same; reflexivity.
+Qed.
+
+(* ---- every call ---- *)
+Definition NI (s : state) : Prop := Inv1a s /\ InvT s /\ NsInv s.
+
+Lemma ni_struct s (r : R) : struct_eq s (fst r) -> Inv1a s -> InvT s -> Inv1a (fst r) /\ InvT (fst r).
+Proof.
+  intros Hse Ha HT. split; [eapply inv1a_cont; [apply struct_cont; exact Hse|exact Ha]|apply (tstep_invt s); [apply tstep_struct; exact Hse|exact HT]].
+Qed.
+
+Lemma ni_dict_set s e k v : NI s -> NI (fst (dict_set s e k v)).
+Proof.
+  intros [Ha [HT H]]. destruct (ni_struct s (dict_set s e k v) (se_dict_set s e k v) Ha HT) as [A B].
+  split; [exact A|split; [exact B|apply nsinv_dict_set; assumption]].
+Qed.
+
+Lemma ni_set_props e props : forall s, NI s -> NI (fst (set_props s e props)).
+Proof.
+  induction props as [|[k v] ps IH]; intros s H; cbn [set_props]; [exact H|].
+  pose proof (ni_dict_set s e k v H) as H1. destruct (dict_set s e k v) as [s1 [x|]]; cbn [bindR fst] in *; [exact H1|apply IH; exact H1].
+Qed.
+
+Lemma ni_same s s' :
+  kids s' = kids s -> par s' = par s -> kind_of s' = kind_of s -> (forall y, nstab s' y = nstab s y) -> data s' = data s -> NI s -> NI s'.
+Proof.
+  intros A B C D E [Ha [HT H]]. split; [apply (inv1a_cont s s'); [split; assumption|exact Ha]|].
+  split; [apply (tstep_invt s); [apply tstep_same; assumption|exact HT]|].
+  apply (nsinv_fields s); [intros; rewrite A; reflexivity|exact D|exact E|exact H].
+Qed.
+
+Lemma ni_construct s k nm props : Fresh s -> NI s -> NI (fst (fst (construct s k nm props))).
+Proof.
+  intros F H. unfold construct, alloc. cbn zeta beta iota.
+  set (s0 := s <| next := S (next s) |> <| kind_of ::= fun f => upd f (next s) (Some k) |>).
+  assert (H0 : NI s0).
+  { destruct H as [Ha [HT H]]. split; [apply (inv1a_cont s s0); [split; reflexivity|exact Ha]|].
+    split; [apply (tstep_invt s); [apply (tstep_alloc s k F)|exact HT]|].
+    apply (nsinv_fields s); [intros; reflexivity|intro; reflexivity|reflexivity|exact H]. }
+  destruct (has_data k); cbn [fst]; [|exact H0].
+  pose proof (ni_dict_set s0 (next s) str_NS (VStr (pol_name (policy s0))) H0) as H1. unfold ns_create.
+  destruct (dict_set s0 (next s) str_NS (VStr (pol_name (policy s0)))) as [s1 [x|]]; cbn [bindR fst] in *; [exact H1|].
+  assert (H2 : NI (emit s1 (ECreate k (next s)))) by (apply (ni_same s1); [reflexivity|reflexivity|reflexivity|intro; reflexivity|reflexivity|exact H1]).
+  match goal with |- NI (fst (?m >>= _)) => assert (H3 : NI (fst m)); [|destruct m as [s3 [x|]]; cbn [bindR fst] in *; [exact H3|apply ni_set_props; exact H3]] end.
+  destruct nm; [apply ni_dict_set; exact H2|exact H2].
+Qed.
+
+Lemma q3_rekey s n cn : q3 s (fst (rekey s n cn)).
+Proof. unfold rekey. destruct cn. destruct (assoc _ _) as [[w|]|]; constructor; reflexivity. Qed.
+Lemma q3_fold_pairsR f l : (forall s x, q3 s (fst (f s x))) -> forall s, q3 s (fst (fold_pairsR f l s)).
+Proof. intro H. induction l as [|x l IH]; intro s; cbn; [apply q3_refl|]. apply q3_bind; [apply H|apply IH]. Qed.
+Lemma q3_fold_ids f l : (forall s x, q3 s (f s x)) -> forall s, q3 s (fold_ids f l s).
+Proof. intro H. induction l as [|x l IH]; intro s; cbn; [apply q3_refl|]. eapply q3_trans; [apply H|apply IH]. Qed.
+Lemma q3_guard b x s k : (forall s1, q3 s1 (fst (k s1))) -> q3 s (fst (guard b x s k)).
+Proof. intro H. unfold guard. destruct b; [apply H|apply q3_refl]. Qed.
+
+Lemma q3_op_set_reference s x v : q3 s (fst (op_set_reference s x v)).
+Proof.
+  unfold op_set_reference. repeat (apply q3_guard; intro). destruct v as [d'|].
+  - apply q3_bind; [|intro; constructor; reflexivity].
+    destruct (iref _ x).
+    + apply q3_bind; [destruct (memb _ _); constructor; reflexivity|]. intro. apply q3_fold_pairsR. intros; apply q3_rekey.
+    + cbn [fst ret]. eapply q3_trans; [|apply q3_fold_ids; intros; constructor; reflexivity]. constructor; reflexivity.
+  - apply q3_bind; [eapply q3_trans; [|apply q3_fold_idsR; intros; apply q3_drop_outer]; constructor; reflexivity|].
+    intro s3. apply q3_bind; [destruct (iref _ x); [destruct (memb _ _)|]; constructor; reflexivity|intro; constructor; reflexivity].
+Qed.
+
+Lemma nsinv_q3 s s' : q3 s s' -> NsInv s -> NsInv s'.
+Proof. intros [A B C _] H. apply (nsinv_fields s); [intros; rewrite A; reflexivity|intro; rewrite C; reflexivity|exact B|exact H]. Qed.
+
+Lemma fold_unset_fields_ns w : forall l s,
+  let s' := fold_left (fun s p =>
+              match p with
+              | POut _ _ => set_pin_wire (emit (emit s (EDisconnect w p)) (EDisconnect w p)) p None
+              | _ => set_pin_wire (emit s (EDisconnect w p)) p None
+              end) l s in
+  kids s' = kids s /\ nstab s' = nstab s /\ data s' = data s.
+Proof.
+  induction l as [|p l IH]; intro s; cbn [fold_left]; [repeat split|].
+  match goal with |- context [fold_left ?f l ?s1] => destruct (IH s1) as [A [B C]] end.
+  cbn zeta. rewrite A, B, C. destruct p; repeat split.
+Qed.
+
+Lemma ni_of s : Inv s -> InvT s -> NsInv s -> NI s.
+Proof. intros HI HT H. split; [apply HI|split; assumption]. Qed.
+
+Lemma nsinv_create_items r p : ns_rel r = false -> forall n s,
+  Inv s -> InvT s -> Fresh s -> NsInv s -> NsInv (fst (create_items s r p n)).
+Proof.
+  intros Hr. induction n as [|n IH]; intros s HI HT F H; cbn [create_items]; [exact H|].
+  unfold alloc. cbn zeta.
+  set (s0 := s <| next := S (next s) |> <| kind_of ::= fun f => upd f (next s) (Some (rel_child r)) |>).
+  assert (HI0 : Inv s0) by (apply (inv_of_fields s); try reflexivity; exact HI).
+  assert (HT0 : InvT s0) by (apply (tstep_invt s); [apply (tstep_alloc s (rel_child r) F)|exact HT]).
+  assert (F0 : Fresh s0) by (apply (fresh_alloc s (rel_child r) F)).
+  assert (H0 : NsInv s0) by (apply (nsinv_fields s); [intros; reflexivity|intro; reflexivity|reflexivity|exact H]).
+  pose proof (nsinv_op_add s0 r p (next s) None (inv_a s0 HI0) HT0 H0) as H1.
+  pose proof (op_add_inv s0 r p (next s) None HI0) as [HI1 _].
+  pose proof (tstep_invt _ _ (tstep_op_add s0 r p (next s) None) HT0) as HT1.
+  pose proof (fresh_op_add s0 r p (next s) None F0) as F1.
+  destruct (op_add s0 r p (next s) None) as [s1 [x|]]; cbn [bindR fst] in *; [exact H1|].
+  apply IH; assumption.
+Qed.
+
+Theorem step_nsinv s o :
+  Inv s -> InvT s -> Fresh s -> NsInv s -> NsInv (fst (step s o)).
+Proof.
+  intros HI HT F H. pose proof (ni_of s HI HT H) as HN.
+  pose proof (step_inv s o HI) as [_ Hns].
+  destruct o; cbn [step] in *.
+  - apply (ni_construct s k nm props F HN).
+  - revert Hns. unfold guard. destruct (_ && _) eqn:HG; [|intros _; exact H].
+    apply andb_true_iff in HG as [HG _]. apply andb_true_iff in HG as [_ Hr].
+    unfold create_and_add.
+    pose proof (ni_construct s (rel_child r) nm props F HN) as [Hac [HTc Hc]].
+    pose proof (construct_rinv s (rel_child r) nm props HI) as [HIc _].
+    pose proof (fresh_construct s (rel_child r) nm props F) as Fc.
+    destruct (construct s (rel_child r) nm props) as [res x]. cbn [fst] in *.
+    destruct res as [s1 [e|]]; cbn [bindR fst snd] in *; [intros _; exact Hc|].
+    pose proof (nsinv_op_add s1 r p x None Hac HTc Hc) as H2.
+    pose proof (op_add_inv s1 r p x None HIc) as [HI2 _].
+    pose proof (tstep_invt _ _ (tstep_op_add s1 r p x None) HTc) as HT2.
+    pose proof (fresh_op_add s1 r p x None Fc) as F2.
+    destruct (op_add s1 r p x None) as [s2 [e|]]; cbn [bindR fst snd] in *; [intros _; exact H2|].
+    intros _. destruct r; try exact H2; try discriminate Hr.
+    + apply nsinv_create_items; [reflexivity|assumption..].
+    + apply nsinv_create_items; [reflexivity|assumption..].
+    + apply (nsinv_q3 s2); [apply q3_op_set_reference|exact H2].
+  - revert Hns. unfold guard. destruct (_ && _) eqn:HG; [|intros _; exact H].
+    apply andb_true_iff in HG as [_ Hr]. apply negb_true_iff in Hr. intros _.
+    apply nsinv_create_items; assumption.
+  - apply nsinv_op_add; [apply HI|exact HT|exact H].
+  - apply nsinv_op_remove; [apply HI|exact H|exact Hns].
+  - apply nsinv_op_remove_from; [apply HI|exact H|exact Hns].
+  - unfold op_reorder, guard. destruct (is_kind _ _ _); [|exact H].
+    destruct (nodupb l && seteqb (kids s r p) l) eqn:Hg; [|exact H]. cbn [fst ret].
+    apply andb_true_iff in Hg as [_ Hs]. rewrite seteqb_spec in Hs.
+    apply (nsinvm_mem_ext _ (kmem s)); [|apply (nsinvm_same s); [exact H|intro; reflexivity|intros; reflexivity]].
+    intros r0 p0 c0 _. unfold kmem. cbn. rewrite kids_upd2_ns. destruct (rel_eqb r0 r) eqn:Er; cbn [andb]; [|tauto].
+    apply rel_eqb_spec in Er. subst. destruct (Nat.eqb_spec p0 p) as [->|]; [symmetry; apply Hs|tauto].
+  - unfold op_reorder_wire, guard. destruct (is_kind _ _ _); [|exact H]. destruct (_ && _); [|exact H].
+    apply (nsinv_fields s); [intros; reflexivity|intro; reflexivity|reflexivity|exact H].
+  - unfold op_connect, guard. destruct (_ && _); [|exact H].
+    destruct p as [i|n i|]; cbn; try exact H.
+    + destruct (ipwire s i); cbn; [exact H|]. apply (nsinv_fields s); [intros; reflexivity|intro; reflexivity|reflexivity|exact H].
+    + destruct (assoc i (ipins s n)) as [[w0|]|]; cbn; try exact H. apply (nsinv_fields s); [intros; reflexivity|intro; reflexivity|reflexivity|exact H].
+  - unfold op_disconnect, guard. destruct (_ && _); [|exact H]. destruct (can_disconnect _ _ _); [|exact H].
+    destruct p; cbn; apply (nsinv_fields s); try (intros; reflexivity); try reflexivity; exact H.
+  - unfold op_disconnect_from, guard. destruct (_ && _); [|exact H]. destruct (forallb _ _); [|exact H]. cbn [fst ret].
+    destruct (fold_unset_fields_ns w (pins_dedup ps) s) as [A [B C]].
+    apply (nsinv_fields s); [intros; cbn; rewrite A; reflexivity|intro; cbn; rewrite B; reflexivity|cbn; rewrite C; reflexivity|exact H].
+  - apply (nsinv_q3 s); [apply q3_op_set_reference|exact H].
+  - revert Hns. unfold op_set_top, guard. destruct (_ && _); [|intros _; exact H].
+    set (s1 := clear_old_top (emit s (ETop n a)) n).
+    assert (E : kids s1 = kids s /\ par s1 = par s /\ kind_of s1 = kind_of s /\ nstab s1 = nstab s /\ data s1 = data s).
+    { unfold s1, clear_old_top. destruct (top _ n); repeat split; reflexivity. }
+    destruct E as [E1 [E2 [E3 [E4 E5]]]].
+    assert (HN1 : NI s1) by (apply (ni_same s); try assumption; intro; rewrite E4; reflexivity).
+    assert (F1 : Fresh s1) by (apply (fresh_same s); try assumption; unfold s1, clear_old_top; destruct (top _ n); reflexivity).
+    destruct a as [x|d|].
+    + intros _. cbn [fst ret]. apply (nsinv_fields s1); [intros; reflexivity|intro; reflexivity|reflexivity|apply HN1].
+    + pose proof (ni_construct s1 KInstance None [] F1 HN1) as [_ [_ Hc]].
+      destruct (construct s1 KInstance None []) as [res t]. cbn [fst] in Hc.
+      destruct res as [s2 [e|]]; cbn [bindR fst snd] in *; [intros _; exact Hc|].
+      pose proof (q3_op_set_reference s2 t (Some d)) as Q.
+      destruct (op_set_reference s2 t (Some d)) as [s3 [e|]]; cbn [bindR fst snd ret] in *; intros _.
+      * apply (nsinv_q3 s2); assumption.
+      * apply (nsinv_fields s3); [intros; unfold clear_old_top; cbn; destruct (top _ n); reflexivity
+                                 |intro; unfold clear_old_top; cbn; destruct (top _ n); reflexivity
+                                 |unfold clear_old_top; cbn; destruct (top _ n); reflexivity|apply (nsinv_q3 s2); assumption].
+    + intros _. cbn [fst ret]. apply (nsinv_fields s1); [intros; reflexivity|intro; reflexivity|reflexivity|apply HN1].
+  - unfold guard. destruct (elem_has_data s e); [|exact H]. unfold op_set_name.
+    destruct nm; [apply nsinv_dict_set; [apply HI|exact HT|exact H]|].
+    destruct (has_key s e str_NAME); [apply nsinv_dict_del; [apply HI|exact HT|exact H]|exact H].
+  - unfold guard. destruct (elem_has_data s e); [|exact H]. unfold op_del_name.
+    destruct (has_key s e str_NAME); [apply nsinv_dict_del; [apply HI|exact HT|exact H]|exact H].
+  - unfold guard. destruct (elem_has_data s e); [|exact H]. apply nsinv_dict_set; [apply HI|exact HT|exact H].
+  - unfold guard. destruct (elem_has_data s e); [|exact H]. apply nsinv_dict_del; [apply HI|exact HT|exact H].
+  - unfold guard. destruct (elem_has_data s e); [|exact H]. apply nsinv_dict_pop; [apply HI|exact HT|exact H].
+  - unfold guard. destruct (_ || _); [|exact H]. apply (nsinv_fields s); [intros; reflexivity|intro; reflexivity|reflexivity|exact H].
+  - unfold guard. destruct (_ || _); [|exact H]. destruct (negb _); [|exact H]. apply (nsinv_fields s); [intros; reflexivity|intro; reflexivity|reflexivity|exact H].
+  - unfold guard. destruct (_ || _); [|exact H]. apply (nsinv_fields s); [intros; reflexivity|intro; reflexivity|reflexivity|exact H].
+  - unfold guard. destruct (is_kind _ _ _); [|exact H]. apply (nsinv_fields s); [intros; reflexivity|intro; reflexivity|reflexivity|exact H].
+  - apply (nsinv_fields s); [intros; reflexivity|intro; reflexivity|reflexivity|exact H].
+Qed.
+
+(* ---- histories, and what the invariant says to a user ---- *)
+Lemma nsinv_init : NsInv init.
+Proof. intros p t Hp. discriminate. Qed.
+
+Lemma invt_init : InvT init.
+Proof. intros r p c []. Qed.
+
+Theorem reachable_nsinv ops :
+  let s := run ops init in Inv s /\ InvT s /\ Fresh s /\ NsInv s.
+Proof.
+  cbn zeta.
+  assert (G : forall ops s, Inv s -> InvT s -> Fresh s -> NsInv s ->
+              Inv (run ops s) /\ InvT (run ops s) /\ Fresh (run ops s) /\ NsInv (run ops s)).
+  { induction ops0 as [|o ops0 IH]; intros s HI HT F H; cbn [run fold_left]; [split; [exact HI|split; [exact HT|split; [exact F|exact H]]]|].
+    apply IH; [apply (step_inv s o HI)|apply step_invt; assumption|apply step_fresh; exact F|apply step_nsinv; assumption]. }
+  apply G; [apply inv_init|apply invt_init|apply fresh_init|apply nsinv_init].
+Qed.
+
+(* sibling names are unique in every scope that carries a policy *)
+Theorem names_unique s p t r c1 c2 v :
+  NsInv s -> nstab s p = Some t -> ns_rel r = true ->
+  In c1 (kids s r p) -> In c2 (kids s r p) ->
+  get_str s c1 str_NAME = Some v -> get_str s c2 str_NAME = Some v -> c1 = c2.
+Proof.
+  intros H Hp Hr H1 H2 E1 E2. pose proof (tk_names _ _ _ _ (H p t Hp) r Hr) as S.
+  assert (A : sassoc v (ns_names t (rel_child r)) = Some c1) by (apply S; split; assumption).
+  assert (B : sassoc v (ns_names t (rel_child r)) = Some c2) by (apply S; split; assumption). congruence.
+Qed.
+
+(* and under the EDIF policy identifiers are unique up to letter case *)
+Theorem idents_unique s p t r c1 c2 v1 v2 :
+  NsInv s -> nstab s p = Some t -> ns_pol t = PolEdif -> ns_rel r = true ->
+  In c1 (kids s r p) -> In c2 (kids s r p) ->
+  get_str s c1 str_IDENT = Some v1 -> get_str s c2 str_IDENT = Some v2 -> lower v1 = lower v2 -> c1 = c2.
+Proof.
+  intros H Hp Hpol Hr H1 H2 E1 E2 El. pose proof (tk_idents _ _ _ _ (H p t Hp) Hpol r Hr) as S.
+  assert (A : sassoc (lower v1) (ns_idents t (rel_child r)) = Some c1) by (apply S; split; [assumption|unfold ident_key; rewrite E1; reflexivity]).
+  assert (B : sassoc (lower v1) (ns_idents t (rel_child r)) = Some c2) by (apply S; split; [assumption|unfold ident_key; rewrite E2, El; reflexivity]). congruence.
+Qed.
+
+(* exact lookup through the manager's table = what a linear scan of the children finds *)
+Lemma find_unique {A} (f : A -> bool) (l : list A) x :
+  In x l -> f x = true -> (forall y, In y l -> f y = true -> y = x) -> find f l = Some x.
+Proof.
+  induction l as [|a l IH]; intros Hin Hf Hu; [destruct Hin|]. cbn.
+  destruct (f a) eqn:Ea; [f_equal; apply Hu; [left; reflexivity|exact Ea]|].
+  destruct Hin as [->|Hin]; [congruence|]. apply IH; [exact Hin|exact Hf|intros y Hy; apply Hu; right; exact Hy].
+Qed.
+
+Lemma find_none {A} (f : A -> bool) (l : list A) : (forall y, In y l -> f y = false) -> find f l = None.
+Proof. induction l as [|a l IH]; intro H; cbn; [reflexivity|]. rewrite (H a (or_introl eq_refl)). apply IH. intros y Hy. apply H. right. exact Hy. Qed.
+
+Theorem lookup_is_scan_name s p t r v :
+  NsInv s -> nstab s p = Some t -> ns_rel r = true ->
+  fast_lookup s p (rel_child r) str_NAME v = scan_lookup s (kids s r p) str_NAME v.
+Proof.
+  intros H Hp Hr. pose proof (tk_names _ _ _ _ (H p t Hp) r Hr) as S.
+  unfold fast_lookup, scan_lookup. rewrite Hp. unfold ns_lookup. rewrite str_eqb_refl.
+  set (f := fun x => match sassoc str_NAME (data s x) with Some (VStr w) => str_eqb v w | _ => false end).
+  assert (Hf : forall x, f x = true <-> get_str s x str_NAME = Some v).
+  { intro x. unfold f, get_str. destruct (sassoc str_NAME (data s x)) as [[w| | |]|]; try (split; discriminate).
+    rewrite str_eqb_spec. split; [intros ->; reflexivity|intro E; injection E; auto]. }
+  destruct (sassoc v (ns_names t (rel_child r))) as [c|] eqn:E.
+  - apply S in E as [Hin Hk]. symmetry. apply find_unique; [exact Hin|apply Hf; exact Hk|].
+    intros y Hy Hfy. apply Hf in Hfy. apply (names_unique s p t r y c v H Hp Hr Hy Hin Hfy Hk).
+  - symmetry. apply find_none. intros y Hy. destruct (f y) eqn:Ey; [|reflexivity]. apply Hf in Ey.
+    assert (A : sassoc v (ns_names t (rel_child r)) = Some y) by (apply S; split; assumption). congruence.
+Qed.
+
+(* a rename is refused for a conflict exactly when another sibling carries the name *)
+Theorem rename_conflict_iff s p t r e v :
+  NsInv s -> nstab s p = Some t -> ns_rel r = true ->
+  (ns_no_conflict t (rel_child r) e str_NAME v = false <->
+   exists x, In x (kids s r p) /\ x <> e /\ get_str s x str_NAME = Some v).
+Proof.
+  intros H Hp Hr. pose proof (tk_names _ _ _ _ (H p t Hp) r Hr) as S.
+  rewrite no_conflict_iff_name. split.
+  - intros [x [Hx Hne]]. apply S in Hx as [A B]. exists x. auto.
+  - intros [x [A [B C]]]. exists x. split; [apply S; split; assumption|exact B].
 Qed.
